@@ -3,6 +3,8 @@
    The two shape switches come from the source tree (coq/gen/GenC12.v):
      exit_deinit_all   -- label 999 of a phase function deinitialises every local
      loop_skip_deinit  -- no last-use deinit inside a ForLoop body
+     stmt_cond_wrapped -- lower_inst puts a statement that carries its own condition (made from
+                          `a if c else b`) inside `if (condition)`; the theorems hold for both values
    For the unrepaired shapes proofs/RefcountProofs.v has no_leak_refuted, free_once_refuted
    (exit_deinit_all = false) and invariant_refuted (loop_skip_deinit = false). *)
 From Coq Require Import List Arith.
@@ -10,41 +12,43 @@ Import ListNotations.
 From Dagrt Require Import GenC12 Refcount RefcountProofs.
 
 (* Full statement of the property for the code as it is now: for every well-formed program (one or
-   more phases, guards, loops, early exits, moves), every set of initialised state variables and
-   every sequence of guard valuations (one per call of run), followed by shutdown *)
+   more phases, guards, loops, early exits, moves, statements that carry a condition of their
+   own), every set of initialised state variables and every sequence of guard valuations (one per
+   call of run; a valuation gives every flag a value at every tuple of loop trip indices), followed
+   by shutdown *)
 Definition C12_full_statement : Prop :=
   (* the generated code never reads or writes through an unassociated or released pointer, never
      sees a non-positive counter (the only fault left is the source program reading a variable it
      never assigned), and at the end -- done, stopped or faulted -- every live counter equals the
      number of variables pointing to its block and is positive *)
   (forall p present h, prog_wf p = true ->
-     let r := run_mem (emit_mem exit_deinit_all loop_skip_deinit p) present h in
+     let r := run_mem (emit_mem exit_deinit_all loop_skip_deinit stmt_cond_wrapped p) present h in
      (forall f st, r = HFault f st -> exists x, f = SrcUndefined x) /\
      refcount_inv (universe p) (final_state r)) /\
   (* after shutdown no block is live and shutdown reports no leaked reference *)
   (forall p present h st reps, prog_wf p = true ->
-     run_mem (emit_mem exit_deinit_all loop_skip_deinit p) present h = HDone st reps ->
+     run_mem (emit_mem exit_deinit_all loop_skip_deinit stmt_cond_wrapped p) present h = HDone st reps ->
      live_blocks st = [] /\ reps = []) /\
   (* every block that was allocated has been released exactly once, nothing else was released *)
   (forall p present h st reps, prog_wf p = true ->
-     run_mem (emit_mem exit_deinit_all loop_skip_deinit p) present h = HDone st reps ->
+     run_mem (emit_mem exit_deinit_all loop_skip_deinit stmt_cond_wrapped p) present h = HDone st reps ->
      forall b, count_occ Nat.eq_dec (frees st) b = if Nat.ltb b (nxt st) then 1 else 0).
 
 Theorem C12_invariant : forall p present h, prog_wf p = true ->
-  let r := run_mem (emit_mem exit_deinit_all loop_skip_deinit p) present h in
+  let r := run_mem (emit_mem exit_deinit_all loop_skip_deinit stmt_cond_wrapped p) present h in
   (forall f st, r = HFault f st -> exists x, f = SrcUndefined x) /\
   refcount_inv (universe p) (final_state r).
-Proof. exact (invariant_holds exit_deinit_all loop_skip_deinit eq_refl eq_refl). Qed.
+Proof. exact (invariant_holds exit_deinit_all loop_skip_deinit stmt_cond_wrapped eq_refl eq_refl). Qed.
 Print Assumptions C12_invariant.
 
 Theorem C12_no_leak : forall p present h st reps, prog_wf p = true ->
-  run_mem (emit_mem exit_deinit_all loop_skip_deinit p) present h = HDone st reps ->
+  run_mem (emit_mem exit_deinit_all loop_skip_deinit stmt_cond_wrapped p) present h = HDone st reps ->
   live_blocks st = [] /\ reps = [].
-Proof. exact (no_leak_holds exit_deinit_all loop_skip_deinit eq_refl eq_refl). Qed.
+Proof. exact (no_leak_holds exit_deinit_all loop_skip_deinit stmt_cond_wrapped eq_refl eq_refl). Qed.
 Print Assumptions C12_no_leak.
 
 Theorem C12_free_once : forall p present h st reps, prog_wf p = true ->
-  run_mem (emit_mem exit_deinit_all loop_skip_deinit p) present h = HDone st reps ->
+  run_mem (emit_mem exit_deinit_all loop_skip_deinit stmt_cond_wrapped p) present h = HDone st reps ->
   forall b, count_occ Nat.eq_dec (frees st) b = if Nat.ltb b (nxt st) then 1 else 0.
-Proof. exact (free_once_holds exit_deinit_all loop_skip_deinit eq_refl eq_refl). Qed.
+Proof. exact (free_once_holds exit_deinit_all loop_skip_deinit stmt_cond_wrapped eq_refl eq_refl). Qed.
 Print Assumptions C12_free_once.
